@@ -34,7 +34,7 @@ def tree_case(ctx, case):
     other = os.path.join(base, 'other')
     decoys = os.path.join(base, 'decoys')
     os.makedirs(other)
-    main, inc, files = trees.write(case['tree'], base, decoy_dirs=[decoys])
+    main, inc, files = trees.write(case['tree'], base, decoy_dirs=[decoys], shadow_ancestors=case.get('shadow', False))
     comp = case.get('compress', False)
     ref = assemble(asm, trees.spliced(case['tree']), compress=comp)
     if ref[0] != 'ok':
@@ -200,6 +200,11 @@ def run(tier, seed, t0):
     for (w1, p1), (w2, p2) in itertools.product(itertools.product(trees.DIRS, trees.POSITIONS), repeat=2):
         kids = [trees.node('a.asm', w1, p1, 'plain', [trees.node('deep.asm', 'sub', 'middle', 'dquote')]), trees.node('b.asm', w2, p2, 'comment')]
         cases.append(dict(tree=trees.node('main.asm', children=kids), cwds=['root', 'decoys']))
+    # the same chains of depth 2 and 3 with a same-named decoy planted in every directory further up the include chain (not a documented search location)
+    for i, t in enumerate(chains(2, trees.DIRS, trees.POSITIONS, ['plain'])):
+        cases.append(dict(tree=t, cwds=['other'], shadow=True))
+    for i, t in enumerate(chains(3, trees.DIRS, ['middle'], ['plain'])):
+        cases.append(dict(tree=t, cwds=['other'], shadow=True))
     m = kernel.explore(tree_task, list(kernel.chunks(cases, 40)))
     extra = [('samename_case', dict(rel=r)) for r in ('x.asm', 'sub/x.asm')]
     extra += [('definitions_case', dict(file=f, const=c)) for f, c in (('GD32VF103.asm', 'RCU_BASE_ADDR'), ('FE310-G002.asm', 'GPIO_BASE_ADDR'))]
@@ -212,7 +217,7 @@ def run(tier, seed, t0):
                     'textually spliced single file; every tree has at least one include and is non-trivial',
                exhaustive=True, cli_runs=n['cli_runs'], subprocess_runs=n['subprocess_runs'],
                bound='chains of depth 1 and 2: full product of 4 locations x 3 positions x 4 include-line styles per level; depth 3: full product of locations x positions'
-                     '%s; siblings: all pairs of (location, position); 4 working directories; same name in two directories; --include-definitions; real sub-processes for a sub-set'
+                     '%s; siblings: all pairs of (location, position); chains of depth 2-3 with same-named decoys in every ancestor directory; 4 working directories; same name in two directories; --include-definitions; real sub-processes for a sub-set'
                      % (' x styles' if tier == 'thorough' else ' (plain style)'))
     return kernel.finish(PROP, tier, seed, t0, m, cov, [
         'API calls pass an absolute main path and absolute include_dirs (what cli_main does); for source given as text the working directory is the documented base',
